@@ -1,0 +1,25 @@
+//go:build verif
+
+package consul
+
+import "github.com/hashicorp/consul/api"
+
+// VerifPassingServices exposes passingServices. Only compiled with the verif build tag.
+func VerifPassingServices(checks []*api.HealthCheck, status []string, strict bool) []*api.HealthCheck {
+	return passingServices(checks, status, strict)
+}
+
+// VerifChecksWithTagPrefix exposes checksWithTagPrefix. Only compiled with the verif build tag.
+func VerifChecksWithTagPrefix(prefix string, checks api.HealthChecks) api.HealthChecks {
+	return checksWithTagPrefix(prefix, checks)
+}
+
+// VerifBuildRouteCmds exposes routecmd.build. Only compiled with the verif build tag.
+func VerifBuildRouteCmds(svc *api.CatalogService, prefix string, env map[string]string) []string {
+	return routecmd{svc: svc, prefix: prefix, env: env}.build()
+}
+
+// VerifParseURLPrefixTag exposes parseURLPrefixTag. Only compiled with the verif build tag.
+func VerifParseURLPrefixTag(s, prefix string, env map[string]string) (route, opts string, ok bool) {
+	return parseURLPrefixTag(s, prefix, env)
+}
